@@ -422,6 +422,10 @@ func (s *Server) serve(cxt context.Context) {
 	if err != nil {
 		logCxt.WithError(err).Panic("Failed to open listen socket")
 	}
+	if simListen != nil {
+		_ = l.Close()
+		l = simListen(laddr)
+	}
 	logCxt.Info("Opened listen socket")
 
 	s.Finished.Go(func() {
